@@ -28,9 +28,11 @@ ASSUMPTIONS = ['pipeline functions themselves are decided by C03/C04/C11/C12',
 def shards(tier):
     if tier == 'quick':
         return [dict(kind='fit', n=640, parts=8, timeout=900),
-                dict(kind='spectrum', n=1600, parts=8, timeout=900)]
+                dict(kind='spectrum', n=1600, parts=8, timeout=900),
+                dict(kind='large', n=4, parts=4, timeout=900, start=900000)]
     return [dict(kind='fit', n=16000, parts=8, timeout=3400),
-            dict(kind='spectrum', n=40000, parts=8, timeout=3400)]
+            dict(kind='spectrum', n=40000, parts=8, timeout=3400),
+            dict(kind='large', n=48, parts=8, timeout=3400, start=900000)]
 
 
 def setup(ctx):
@@ -486,7 +488,74 @@ def run_timescales(ctx, rng, idx):
                       % (got.tolist(), exp.tolist()))
 
 
+def run_large(ctx, rng, idx):
+    """A model with >= 1000 states from a slowly mixing chain: counts are
+    sparse, so the populations of the row-normalised model come from the
+    sparse (ARPACK) eigen-solver."""
+    C = mc.large_metastable_counts(rng)
+    n = C.shape[0]
+    rs = np.asarray(C.sum(axis=1)).ravel().astype(float)
+    cum = []
+    Cl = C.tolil()
+    for i in range(n):
+        cum.append((np.array(Cl.rows[i]), np.cumsum(
+            np.array(Cl.data[i], dtype=float)) / rs[i]))
+    trajs = []
+    for _ in range(int(rng.integers(1, 4))):
+        L = int(rng.integers(40000, 70000))
+        u = rng.random(L)
+        t = np.empty(L, dtype=np.int32)
+        st = int(rng.integers(0, n))
+        for k_ in range(L):
+            t[k_] = st
+            nb, cp = cum[st]
+            st = int(nb[min(np.searchsorted(cp, u[k_]), len(nb) - 1)])
+        trajs.append(t)
+    a = R(trajs)
+    ctx.describe({'kind': 'large', 'n_states': n,
+                  'frames': [len(t) for t in trajs]})
+    try:
+        with warnings.catch_warnings():
+            warnings.simplefilter('ignore')
+            m = MSM(lag_time=1, method=builders.normalize, trim=True)
+            m.fit(a)
+            Cc = tm.assigns_to_counts(a, lag_time=1)
+            mp, Cc = tm.trim_disconnected(Cc)
+            _, Tp, pp = builders.normalize(Cc)
+    except Exception as e:  # noqa
+        ctx.crash('msm.large.raised', e)
+        return
+    ctx.count('large_models_fitted')
+    Td = densify(m.tprobs_)
+    pi = np.asarray(m.eq_probs_, dtype=float)
+    if len(Td) < 1000:
+        ctx.count('large_models_below_threshold')
+    if not np.array_equal(Td, densify(Tp)):
+        ctx.violation('msm.fit.differs-from-pipeline',
+                      'large model: tprobs_ differ from the pipeline')
+    w, V = np.linalg.eig(Td.T)
+    k0 = int(np.argmax(w.real))
+    ref = np.abs(V[:, k0].real)
+    ref /= ref.sum()
+    res = float(np.abs(pi @ Td - pi).max())
+    if pi.shape != ref.shape or abs(pi.sum() - 1) > 1e-9 or \
+            np.any(pi < -1e-12) or res > 1e-10 or \
+            np.abs(pi - ref).max() > 1e-8:
+        ctx.violation('msm.large.populations-not-stationary',
+                      '%d states: |pi T - pi| = %.3g, max |pi - dense '
+                      'reference| = %.3g, min pi %.3g' % (
+                          len(Td), res, np.abs(pi - ref).max()
+                          if pi.shape == ref.shape else -1, pi.min()))
+    if np.abs(pi - np.asarray(pp, dtype=float)).max() > 1e-8:
+        ctx.violation('msm.fit.differs-from-pipeline',
+                      'large model: eq_probs_ differ from the pipeline by '
+                      '%.3g' % np.abs(pi - np.asarray(pp)).max())
+    ctx.nontriv('large', n, tuple(len(t) for t in trajs))
+
+
 def run_case(ctx, kind, rng, idx):
+    if kind == 'large':
+        return run_large(ctx, rng, idx)
     if kind == 'fit':
         run_fit(ctx, rng, idx)
         if idx % 3 == 0:
